@@ -68,8 +68,10 @@ class VClock:
         return errors
 
     def next_due(self):
+        # like core.run / TaskManager.get_next_task: only the ROOT of the scheduler's heap is looked at
+        # (the same instant as min() on a valid heap; on a damaged heap the real loop sleeps on the root too)
         tasks = self.tm.tasks
-        return min(t[0] for t in tasks) if tasks else None
+        return tasks[0][0] if tasks else None
 
     def advance(self, seconds):
         """advance virtual time by `seconds`, firing every task on the way in order"""
